@@ -23,6 +23,7 @@ type Clause struct {
 }
 
 type LoopSpec struct {
+	IterEnsures []Clause // checked at the back edge over the events of one iteration
 	Invariants []Clause
 	Modifies   []string
 	HasMod     bool
@@ -510,6 +511,13 @@ func (db *ContractDB) parseFile(path, pkgPath string, trusted bool) error {
 						return fmt.Errorf("%s: %v", src, err)
 					}
 					ls.Invariants = append(ls.Invariants, Clause{Kind: "invariant", Label: label, Text: text, Expr: e, Src: src})
+				case "iteration-ensures":
+					label, text := splitLabel(body)
+					e, err := parseSpecExpr(text)
+					if err != nil {
+						return fmt.Errorf("%s: %v", src, err)
+					}
+					ls.IterEnsures = append(ls.IterEnsures, Clause{Kind: "iteration-ensures", Label: label, Text: text, Expr: e, Src: src})
 				case "modifies":
 					ls.HasMod = true
 					for _, it := range splitTop(body, ",") {
